@@ -355,7 +355,7 @@ pub fn random_op(rng: &mut Rng, universe: &[String], len: usize, shrink_bias: bo
 			48..=55 => Op::Insert(k, c),
 			56..=62 => Op::InsertFront(k, c),
 			63..=68 => Op::Remove(k, c),
-			69..=76 => Op::RemoveAt(if len == 0 { 0 } else { rng.below(len + 2) }),
+			69..=76 => Op::RemoveAt(if len == 0 { 0 } else if rng.chance(1, 40) { usize::MAX - rng.below(2) } else { rng.below(len + 2) }),
 			77..=79 => Op::RemoveUnique(k),
 			80 => {
 				if rng.chance(1, 2) {
@@ -607,6 +607,8 @@ pub fn threshold_histories(rep: &mut Report, shard: usize, shards: usize, san: b
 			}
 		}
 		pos.push(len);
+		pos.push(usize::MAX);
+		pos.push(usize::MAX - 1);
 		pos.sort();
 		pos.dedup();
 		for p in pos {
